@@ -35,6 +35,7 @@ def plan_dp(tier, seed, props):
               item("obj_2", NONE, 0.3 if q else 1.0),
               item("deep", NONE, 0.12 if q else 1.0),
               item("deepobj", NONE, 0.5 if q else 1.0),
+              item("deeparr", NONE, 0.15 if q else 1.0),
               item("keyed_2", NONE, 0.5 if q else 1.0)]
     if not q:
         items += [item("scalarr_7_2", NONE, 0.5), item("nestarr_3", NONE, 0.05), item("obj_3", NONE, 0.3),
@@ -181,6 +182,23 @@ def plan_ya(tier, seed, props):
             dict(family="confusable", opts=NONE, frac=1.0, void=False, nf=False)]
 
 
+def plan_v1(tier, seed, props):
+    q = tier == "quick"
+    items = []
+    c18 = "C18" in props
+    items += [item("scalarr_4_3", NONE, 0.12 if q else 0.6), item("nestarr_2", NONE, 0.12 if q else 0.6), item("obj_2", NONE, 0.15 if q else 1.0),
+              item("deep", NONE, 0.06 if q else 0.6), item("deepobj", NONE, 0.4 if q else 1.0), item("deeparr", NONE, 0.15 if q else 1.0),
+              item("keyed_2", NONE, 0.3 if q else 1.0), item("objptr", NONE, 0.01 if q else 0.1), item("ptrdeep", NONE, 0.06 if q else 0.6)]
+    for o in ((MERGE,) if c18 else (SET, MSET, MERGE, KEYS, O(eps=8))):
+        f = 0.05 if q else 0.3
+        vd = not (c18 and o.get("merge"))      # RFC 7386 has no notion of the empty (void) document
+        items += [item("obj_2", o, f * 2, vd), item("deep", o, f / 2, vd), item("deepobj", o, f * 3, vd), item("nestarr_2", o, f, vd),
+                  item("mergedeep", o, f * 2, vd)]
+        if not c18:
+            items += [item("scalarr_4_3", o, f), item("keyed_2", o, f * 4)]
+    return items
+
+
 def followup_vary(sc, jdv, st, tr, tag, seed):
     """pass 2 of C10: TLC applies the variation operators to the real patches of pass 1"""
     out = sc.sub("vary-" + tag)
@@ -227,6 +245,11 @@ CHECKS = {
                 rule="case = one document of the model-generated universe under the yaml-hostile string table (40 strings that look like "
                      "numbers, booleans, null or YAML syntax, in root / member / value / key position): three library legs, yaml-born vs "
                      "json-born equality, and two CLI protocols; non-trivial = the document contains a hostile string or a container"),
+    "C17": dict(stages=[Stage("v1", "TraceV1", plan_v1, yaml_every=0)], design=["MCV1"],
+                rule="session = one (a,b,metadata) through package lib: Diff, Patch of every prefix, Equals, Render + ReadDiffString + Patch"),
+    "C18": dict(stages=[Stage("v1", "TraceV1", plan_v1, yaml_every=0, table="pointer")], design=["MCV1"],
+                rule="session = one list-mode or merge-mode (a,b) through package lib: RenderPatch evaluated by the RFC 6902 machine, RenderMerge by "
+                     "the RFC 7386 function, and both read back by the v1 readers and applied"),
     "C03": dict(stages=[Stage("pt", "TraceDP", plan_pt)], design=["MCPatch"],
                 rule="session = one list-mode diff with its sub-sequences applied to a, b and perturbed targets; "
                      "non-trivial = at least one target rejected and one accepted"),
